@@ -397,7 +397,8 @@ def url(value):
     raise ValueError("value %r is not a URL" % value)
 
 # all valid signal numbers
-SIGNUMS = [ getattr(signal, k) for k in dir(signal) if k.startswith('SIG') ]
+SIGNUMS = [ getattr(signal, k) for k in dir(signal)
+            if k.startswith('SIG') and not k.startswith('SIG_') ]
 
 def signal_number(value):
     try:
